@@ -167,6 +167,18 @@ CHECKS = {
              "builds its matrix in the documented order. Affine arithmetic and rendering equality are not decided.",
         design_ref="DESIGN.md §5 C15", note=STATIC_NOTE,
         technique="static analysis: formula-shape matching after local inlining, guard facts from control dependence, dominance/order rules, mutation scan of the composite"),
+    "C17": dict(
+        text="Static structural clauses: every removal from / reassignment of a statement list in the writers package is one of the five "
+             "reviewed marker sites of _insert, each with its linked obligation re-checked on every run (only the marker comment is "
+             "deleted; a removed block holds only comments; the split moves the tail into a new block first; reassignments are "
+             "concatenations containing the old list in order) - any new such operation is a violation; feature blocks are only created "
+             "for tags in todo (locally or at every call site, or single-feature writers gated by shouldContinue), skip mode subtracts "
+             "existing marker-less tags, overrides defer to the base test; GSUB writers run first; shipped writers declare GPOS/GDEF and "
+             "construct none of feaLib's substitution statements (class list parsed from fontTools); user features parsed once and "
+             "serialised from the same object; markers only in top-level blocks, first per tag. Marker index arithmetic and GSUB byte "
+             "identity are not decided.",
+        design_ref="DESIGN.md §5 C17", note=STATIC_NOTE,
+        technique="static analysis: mutation scan with reviewed-site table and linked obligations, guard facts through call sites, class-attribute tables against parsed fontTools classes"),
 }
 
 _TODO = "check not built yet in this session (static rules designed in DESIGN.md §5; will be claimed when the rule set is armed)"
